@@ -25,6 +25,7 @@ struct Cfg {
     bool nonsimple_paths = false; // allow non-simple (multi-element / tapered) paths
     bool close_vertices = false;  // allow path vertices exactly one grid step apart
     bool robust_paths = false;
+    bool named_props_in_gds = false;  // GDSII-mode models whose elements also carry named (non-GDSII) properties
     bool rings = false;           // rings drawn as one boundary (outer contour, seam, inner contour) even where only simple polygons are wanted
     bool multi_element_simple_paths = false;  // simple FlexPaths with 2-3 parallel elements (one PATH each)
     bool dangling = false;        // references to cells that are not in the library
@@ -332,18 +333,23 @@ inline std::vector<model::MProp> props(Ctx& c, bool element) {
     Rng& r = c.r;
     if (!c.cfg.props || !r.chance(0.3)) return ps;
     int n = (int)r.range(1, 3);
+    if (r.chance(0.1)) n = (int)r.range(4, 6);
     std::set<uint64_t> attrs;
     static const char* const names[] = {"PROP_A", "net", "device.w", "P1", "a_rather_long_property_name_0123456789"};
     for (int i = 0; i < n; i++) {
-        if (element && (c.cfg.mode == canon::GDS || r.chance(0.4))) {
+        // (GDSII holds only the numbered attribute/value pairs; a library may carry named properties next to
+        // them all the same, anywhere in the list: they are simply not written)
+        bool named_in_gds = c.cfg.mode == canon::GDS && element && c.cfg.named_props_in_gds && r.chance(0.25);
+        if (element && !named_in_gds && (c.cfg.mode == canon::GDS || r.chance(0.4))) {
             uint64_t attr = r.chance(0.85) ? (uint64_t)r.range(1, 127) : (uint64_t)r.range(0, 65535);
             if (!attrs.insert(attr).second) continue;
             ps.push_back(gds_prop(r, attr, c.cfg.long_strings));
-        } else if (c.cfg.mode == canon::OAS) {
+        } else if (c.cfg.mode == canon::OAS || named_in_gds) {
             model::MProp p;
             p.name = r.chance(0.7) ? names[r.below(5)] : ident(r, 1, 10);
             int nv = (int)r.range(0, 4);
             if (r.chance(0.04)) nv = (int)r.range(15, 20);
+            if (r.chance(0.003) && !c.cfg.compact) nv = (int)r.range(254, 300);  // a count that needs more than one byte
             for (int k = 0; k < nv; k++) {
                 model::MVal v = any_val(r);
                 if (v.kind == 3) {
